@@ -352,19 +352,23 @@ class EList(ECollection, list):
     def __setitem__(self, i, y):
         is_collection = isinstance(y, Iterable)
         if isinstance(i, slice) and is_collection:
+            # what comes in is walked once (a generator, a set), and a slice
+            # the list would refuse (an extended slice of another size) is
+            # refused before anything is released or reported
+            y = list(y)
+            list(self).__setitem__(i, y)
+            for element in y:
+                self.check(element)
             sliced_elements = self.__getitem__(i)
             if self.is_ref:
-                for element in y:
-                    self.check(element)
-                    self._update_container(element)
-                    self._update_opposite(element, self.owner)
-                # We remove (not really) all element from the slice
+                # the elements that leave are released first: one of them
+                # may be among those that come in
                 for element in sliced_elements:
                     self._update_container(None, previous_value=element)
                     self._update_opposite(element, self.owner, remove=True)
-            else:
                 for element in y:
-                    self.check(element)
+                    self._update_container(element)
+                    self._update_opposite(element, self.owner)
             if sliced_elements and len(sliced_elements) > 1:
                 self.owner.notify(Notification(old=sliced_elements,
                                                feature=self.feature,
@@ -403,12 +407,23 @@ class EList(ECollection, list):
                                            kind=kind))
         self.owner._isset[self.feature] = None
 
-
     def __delitem__(self, i):
-        if isinstance(i, slice):
+        if not isinstance(i, slice):
+            self.pop(i)
+        elif i.step in (None, 1):
             self[i] = []
         else:
-            self.pop(i)
+            # an extended slice: its positions, from the highest one down
+            for k in sorted(range(*i.indices(len(self))), reverse=True):
+                self.pop(k)
+
+    def __imul__(self, n):
+        n = index(n)
+        if n <= 0:
+            self.clear()
+        else:
+            self.extend(list(self) * (n - 1))
+        return self
 
 
 class EBag(EList):
